@@ -273,13 +273,55 @@ fn drop_tok(t: u64, key: bool) {
     })
 }
 
-/// The borrowed form of a key: `K: Borrow<KId>`.
-#[derive(Clone, Copy, Debug)]
-pub struct KId(pub u32);
+/// The borrowed form of a key: `K: Borrow<KId>`. It is an **unsized** type, and all keys are prefixes of
+/// one of two static pools (key `id` = the prefix of length `id + 1`): two *different* keys of the same
+/// pool start at the same address, and two *equal* keys of different pools live at different addresses.
+/// So neither "same address" nor "different address" says anything about equality — only `Eq` does —
+/// and lookups go through fat references (`Q: ?Sized`).
+#[repr(transparent)]
+pub struct KId([u8]);
+
+const POOL_LEN: usize = 1 << 20;
+static POOL_A: [u8; POOL_LEN] = [0; POOL_LEN];
+static POOL_B: [u8; POOL_LEN] = [0; POOL_LEN];
+
+thread_local! {
+    static LOOKUP_POOL: std::cell::Cell<bool> = std::cell::Cell::new(false);
+}
+
+impl KId {
+    pub fn of(id: u32, pool_b: bool) -> &'static KId {
+        let n = id as usize + 1;
+        assert!(n <= POOL_LEN, "key id too large for the key pools");
+        let s: &'static [u8] = if pool_b { &POOL_B[..n] } else { &POOL_A[..n] };
+        // SAFETY: KId is a transparent wrapper of [u8]
+        unsafe { &*(s as *const [u8] as *const KId) }
+    }
+
+    pub fn id(&self) -> u32 {
+        (self.0.len() - 1) as u32
+    }
+}
+
+/// A lookup key for `id`; the pool alternates from call to call (deterministically).
+pub fn kq(id: u32) -> &'static KId {
+    let b = LOOKUP_POOL.with(|c| {
+        let b = c.get();
+        c.set(!b);
+        b
+    });
+    KId::of(id, b)
+}
+
+impl fmt::Display for KId {
+    fn fmt(&self, f: &mut fmt::Formatter<'_>) -> fmt::Result {
+        write!(f, "{}", self.id())
+    }
+}
 
 impl Hash for KId {
     fn hash<H: Hasher>(&self, state: &mut H) {
-        let id = self.0;
+        let id = self.id();
         callback(Kind::Hash, |c| c.hashes.push(id));
         state.write_u32(id);
     }
@@ -288,26 +330,27 @@ impl Hash for KId {
 impl PartialEq for KId {
     fn eq(&self, other: &KId) -> bool {
         callback(Kind::Eq, |_| ());
-        self.0 == other.0
+        self.0.len() == other.0.len()
     }
 }
 
 impl Eq for KId {}
 
 pub struct MK {
-    pub id: KId,
+    pub id: &'static KId,
     pub heap: usize,
     pub tok: u64,
 }
 
 impl MK {
     pub fn new(id: u32, heap: usize) -> MK {
-        MK { id: KId(id), heap, tok: fresh_tok_t(TRACK_K) }
+        let tok = fresh_tok_t(TRACK_K);
+        MK { id: KId::of(id, tok & 2 != 0), heap, tok }
     }
 
     pub fn with_tok(id: u32, heap: usize, tok: u64) -> MK {
         register_tok_t(tok, TRACK_K);
-        MK { id: KId(id), heap, tok }
+        MK { id: KId::of(id, tok & 2 != 0), heap, tok }
     }
 }
 
@@ -327,7 +370,7 @@ impl Eq for MK {}
 
 impl Borrow<KId> for MK {
     fn borrow(&self) -> &KId {
-        &self.id
+        self.id
     }
 }
 
@@ -359,7 +402,7 @@ impl Drop for MK {
 
 impl fmt::Debug for MK {
     fn fmt(&self, f: &mut fmt::Formatter<'_>) -> fmt::Result {
-        write!(f, "{}:{}:{}", self.id.0, self.heap, self.tok)
+        write!(f, "{}:{}:{}", self.id.id(), self.heap, self.tok)
     }
 }
 
